@@ -416,6 +416,12 @@ let () =
            print_endline (if !full then show_res r ^ "\t" ^ show_digest (digest (world2_get w' m))
                                          ^ " | " ^ show_digest (digest (world2_get w' srcn))
                           else show_res r)
+       | [m; "add_var"; v; l] when String.length m > 1 && m.[0] = 'a' ->
+           let m = nat_of_int (int_of_string (String.sub m 1 (String.length m - 1))) in
+           let (w', r) = astep_add_var !aworld m (a_nat (parse_arg v)) (a_opt a_nat (parse_arg l)) in
+           aworld := w';
+           print_endline (if !full then show_res r ^ "\t" ^ show_adigest (adigest (aworld_get w' m))
+                          else show_res r)
        | [m; "copy_bdds_from"; src; hs] when String.length m > 1 && m.[0] = 'a' ->
            let m = nat_of_int (int_of_string (String.sub m 1 (String.length m - 1))) in
            let (w', r) = astep_copy_fn !aworld m (a_nat (parse_arg src)) (a_list a_nat (parse_arg hs)) in
